@@ -30,16 +30,25 @@ def run(ctx):
         ctx.saw(f)
         cfg = f.cfg
         renames = [c for c in f.calls() if c.callee_qp == 'rename']
-        ctx.need(renames, fq + ': no rename call')
+        sf, call_site = f, None
+        if not renames:
+            # the shift may have been extracted into a helper of the same unit that is handed the generation list(s)
+            cands = [(c, h) for c in f.calls() if c.callee_qp for h in prog.fns(c.callee_qp) if h.tu is f.tu and any(x.callee_qp == 'rename' for x in h.calls())]
+            ctx.need(len(cands) == 1, fq + ': no rename call')
+            call_site, sf = cands[0]
+            ctx.saw(sf)
+            renames = [c for c in sf.calls() if c.callee_qp == 'rename']
+        site = call_site if call_site is not None else renames[0]
         # the shift loop: innermost ForStmt containing the renames
         loops = [n for n in f.all_nodes() if n.k == 'ForStmt']
-        shift = [l for l in loops if any(r in list(l.child('body').walk()) for r in renames)]
+        sloops = [n for n in sf.all_nodes() if n.k == 'ForStmt']
+        shift = [l for l in sloops if any(r in list(l.child('body').walk()) for r in renames)]
         ctx.need(len(shift) == 1, fq + ': shift loop not found')
         sh = shift[0]
         init, cond, inc = sh.child('init'), sh.child('cond'), sh.child('inc')
         ctx.need(init is not None and init.k == 'DeclStmt' and cond is not None and inc is not None, fq + ': unexpected shift loop shape')
         lv = init.r['decls'][0][0]
-        start = f.node(init.r['decls'][0][1])
+        start = sf.node(init.r['decls'][0][1])
         # vectors indexed in the renames
         vec_ids = set()
         idx_offsets = []
@@ -54,6 +63,16 @@ def run(ctx):
                 lf = q.linear(subs[0].args[0], sym=lambda x: 'I' if q.refers_to_decl(x, lv) else x.text())
                 ctx.need(lf.t == {'I': 1}, fq + ': rename index is not loop variable + constant: ' + subs[0].args[0].text())
                 idx_offsets.append((r, r.args.index(a), lf.c))
+        vec_ids_sf = set(vec_ids)
+        if call_site is not None:
+            mapped = set()
+            for vid in vec_ids:
+                if vid in sf.param_ids and sf.param_ids.index(vid) < len(call_site.args):
+                    a_ = call_site.args[sf.param_ids.index(vid)].strip(casts=True)
+                    if a_.k == 'DeclRefExpr':
+                        mapped.add(a_.declid)
+            ctx.need(len(mapped) == len(vec_ids), fq + ': generation lists handed to the shift helper not recognised')
+            vec_ids = mapped
         # R29.2 direction: rename(list[i-1], list[i]) ; i descending to 1
         for r in renames:
             offs = {ai: c for (rr, ai, c) in idx_offsets if rr == r}
@@ -124,7 +143,7 @@ def run(ctx):
         ok, how = False, ''
         # (a) start = list.size() - 1
         lf = q.linear(st, sym=lambda x: 'SIZE' if (x.is_call and x.callee is not None and x.callee.get('n') == 'size' and x.obj is not None and
-                                                   x.obj.strip(casts=True).k == 'DeclRefExpr' and x.obj.strip(casts=True).declid in vec_ids) else x.text())
+                                                   x.obj.strip(casts=True).k == 'DeclRefExpr' and x.obj.strip(casts=True).declid in vec_ids_sf) else x.text())
         if lf.t == {'SIZE': 1} and lf.c <= -1:
             ok, how = True, 'start = list.size()%+d' % lf.c
         # (b) start = min(all fill bounds)
@@ -152,12 +171,12 @@ def run(ctx):
                   'the shift loop starts at `%s` but the name list only holds 1 + min(%s) entries: a rotation count above the cap indexes '
                   'past the end of the list' % (st.text(), ', '.join(bounds)))
         # gating
-        atoms = q.controlling_atoms(f, renames[0])
+        atoms = q.controlling_atoms(f, site)
         if kind == 'logger':
             app = any(pol is False and any(x.is_call and x.callee is not None and x.callee.get('n') == 'has' for x in a.walk()) or
                       (pol is True and q.refers_to_decl(a, f.param_ids[0])) for a, pol in atoms)
             # `!append || force` appears as two short-circuit blocks; accept either form by reachability:
-            ctx.check(_gated_logger(f, renames[0]), 'R29.2', fq + '#gate', renames[0].loc, 'rotation only when not appending, or forced')
+            ctx.check(_gated_logger(f, site), 'R29.2', fq + '#gate', site.loc, 'rotation only when not appending, or forced')
         else:
             ctx.check(any(pol is True and q.refers_to_decl(a, f.param_ids[2]) for a, pol in atoms), 'R29.2', fq + '#gate', renames[0].loc,
                       'store rotation only when purging')
